@@ -301,17 +301,25 @@ pub struct GenOpts {
     pub min_kf: usize,
     /// allow positions that are distinct but only an ulp (or a denormal) apart — "instant steps"
     pub adjacent: bool,
+    /// add the keyframes in a non-ascending order now and then (fully shuffled, or one straggler added last)
+    pub shuffle: bool,
     /// allow negative delays (the timeline is already running at t = 0); not used for animators
     pub neg_delay: bool,
 }
 
 impl Default for GenOpts {
     fn default() -> Self {
-        GenOpts { max_kf: 8, repeats: true, random_pos: true, rec: true, back: true, min_kf: 0, adjacent: true, neg_delay: false }
+        GenOpts { max_kf: 8, repeats: true, random_pos: true, rec: true, back: true, min_kf: 0, adjacent: true, neg_delay: false, shuffle: false }
     }
 }
 
 pub fn gen_value(r: &mut Rng, k: Kind) -> f64 {
+    // wide integer types now and then carry values where f32 has no fraction bits left (2^23..2^24, all exactly
+    // representable): rounding tricks that are harmless on small numbers show there
+    if matches!(k, Kind::I32 | Kind::U32 | Kind::I64 | Kind::U64) && r.chance(1, 10) {
+        let v = *r.pick(&[8_388_609.0f64, 8_388_611.0, 12_345_677.0, 16_777_213.0, 16_777_215.0, 16_777_216.0, 9_000_001.0]);
+        return if matches!(k, Kind::I32 | Kind::I64) && r.chance(1, 2) { -v } else { v };
+    }
     let (lo, hi) = k.gen_range();
     let v = lo + (hi - lo) * r.unit();
     if k.is_int() {
@@ -410,6 +418,18 @@ pub fn gen_tl(r: &mut Rng, kinds: &[Kind], o: &GenOpts) -> TlSpec {
         kfs.push(KfSpec { pos: p, vals, easing });
     }
     let default_easing = if r.chance(2, 3) { Some(gen_easing(r, o)) } else { None };
+    if o.shuffle {
+        // among keyframes at the same position the one added first comes first (the model sorts stably),
+        // whatever was added in between
+        match r.below(6) {
+            0 => r.shuffle(&mut kfs),
+            1 if kfs.len() > 1 => {
+                let k = kfs.remove(r.usize(kfs.len() - 1));
+                kfs.push(k);
+            }
+            _ => {}
+        }
+    }
     TlSpec { cycle, delay, repeat, reverse, default_easing, kfs }
 }
 
